@@ -55,6 +55,17 @@ PROPERTY = Property(
     assumptions=['representation invariant: used features are a subset of the supported features; connection parameters valid per Core spec',
                  'the transmit ring is empty (a transmit buffer is available; without one handle_received_data does not call handle_ll_control_data)',
                  'stub radio records committed PDUs; key data base / encryption hardware answer with symbolic values'],
-    explanation='',
-    outside=[],
+    explanation='For every opcode the Core specification defines up to 5.3 (0x00..0x25) with its exact, a too short and a too long length, and for a symbolic opcode '
+                '0x26..0xff, one handle_ll_control_data() is executed on the real link layer from a symbolic state (procedure flags, used features, procedure timeout, '
+                'link layer state) with a symbolic payload. The PDU handed to the radio is compared with the response table of Vol 6 Part B 2.4.2 / 5.1 for a peripheral: '
+                'LL_FEATURE_RSP with FeatureSet[0] = intersection, a single LL_VERSION_IND, LL_PING_RSP, LL_PHY_RSP (2M radio) or LL_UNKNOWN_RSP (no 2M radio), '
+                'LL_CONNECTION_PARAM_RSP or a reject (reject required for out of range parameters), LL_ENC_RSP / LL_PAUSE_ENC_RSP (encryption configuration); '
+                'unknown, unsupported and malformed requests get LL_UNKNOWN_RSP (or LL_REJECT_EXT_IND) naming the opcode; LL_UNKNOWN_RSP of any length and well-formed rejects get nothing; '
+                'other response PDUs get nothing or LL_UNKNOWN_RSP naming them, never anything else; at most one PDU per received PDU; the link is ended only by LL_TERMINATE_IND or an unmeetable instant.',
+    outside=['procedure response timeout (40 s): not decided in this version of the check (planned as step harness on end_event()/timeout() with symbolic procedure_timeout_); '
+             'read in the source: connection parameter request and version exchange start the 40 s timer, the PHY request (phy_update_request) does not',
+             'a LL_VERSION_IND received after the peripheral itself sent one (remote_versions_request) is answered with a second LL_VERSION_IND (read in the source, no flag records the sent PDU); '
+             'the step harness has no state to express it',
+             'desired_connection_parameters / asynchronous_connection_parameter_request option sets; data length extension (LL_LENGTH_REQ is answered LL_UNKNOWN_RSP)',
+             'content of the instant carrying indications (C21)'],
 )
